@@ -379,6 +379,22 @@ def main(args):
             known_counts[f["id"]] = len(bad)
     confirmed = 0
     harness_problem = False
+    # regressions of fixed findings: a fixed entry suppresses nothing
+    for f in findings.load():
+        if f["property"] == PROP and f["status"] == "fixed" and f.get("regression"):
+            rpath = os.path.join(VERIF_DIR, f["regression"])
+            with open(rpath) as fh:
+                pl = json.load(fh)
+            try:
+                a, b = _run_pair(pl["case"], pl["variant"], pl["hashseed"])
+            except HarnessError as e:
+                print("HARNESS-ERROR: %s" % e)
+                return 2
+            compared += len(a)
+            if gen08.compare(a, b):
+                print("VIOLATION property=%s replay=%s" % (PROP, rpath))
+                print("  regression of fixed finding %s (%s)" % (f["id"], f.get("commit")))
+                confirmed += 1
     if mism:
         groups = {}
         for m in mism:
